@@ -1,8 +1,27 @@
 #!/venv/bin/python
 """Run the repository's own suite (hooks/guard off) and compare with /root/.vp/BASELINE.json stable_pass.
 usage: tools/baseline.py [repo_dir]   exit 0 iff every stable-pass test still passes."""
-import json, os, subprocess, sys, tempfile
+import json, os, subprocess, sys, tempfile, time
 import xml.etree.ElementTree as ET
+
+
+def run_pytest(args, cwd, env, xml, limit):
+    """pytest sometimes does not exit after it has written the junit file (a daemon-less thread of the suite is left in
+    accept()): wait for the process, but once the junit file is there and stable for 60 s, kill it"""
+    p = subprocess.Popen(args, cwd=cwd, env=env, stdout=subprocess.DEVNULL, stderr=subprocess.DEVNULL)
+    t0 = time.time(); seen = None
+    while p.poll() is None:
+        time.sleep(2)
+        if os.path.exists(xml):
+            st = (os.path.getsize(xml), os.path.getmtime(xml))
+            if seen and seen[0] == st and time.time() - seen[1] > 60:
+                p.kill(); break
+            if not seen or seen[0] != st:
+                seen = (st, time.time())
+        if time.time() - t0 > limit:
+            p.kill(); break
+    p.wait()
+
 repo = sys.argv[1] if len(sys.argv) > 1 else "/repo"
 base = json.load(open("/root/.vp/BASELINE.json"))
 stable = set(base["stable_pass"])
@@ -10,9 +29,8 @@ with tempfile.TemporaryDirectory() as td:
     xml = os.path.join(td, "r.xml")
     env = dict(os.environ); env.pop("NFCPY_VERIF", None)
     env["PYTHONPATH"] = os.path.join(repo, "src")
-    subprocess.run(["/venv/bin/python", "-m", "pytest", "-q", "-p", "no:cacheprovider", "--timeout=120",
-                    "--continue-on-collection-errors", "--junitxml=" + xml], cwd=repo, env=env,
-                   stdout=subprocess.DEVNULL, stderr=subprocess.DEVNULL)
+    run_pytest(["/venv/bin/python", "-m", "pytest", "-q", "-p", "no:cacheprovider", "--timeout=120",
+                "--continue-on-collection-errors", "--junitxml=" + xml], repo, env, xml, 2400)
     passed = set()
     if not os.path.exists(xml):
         print("pytest produced no junit file"); sys.exit(2)
@@ -31,8 +49,8 @@ for attempt in range(3):
         nodes.append("/".join(parts[:2]) + ".py::" + "::".join(parts[2:] + [name]))
     with tempfile.TemporaryDirectory() as td:
         xml = os.path.join(td, "r.xml")
-        subprocess.run(["/venv/bin/python", "-m", "pytest", "-q", "-p", "no:cacheprovider", "--timeout=300",
-                        "--junitxml=" + xml] + nodes, cwd=repo, env=env, stdout=subprocess.DEVNULL, stderr=subprocess.DEVNULL)
+        run_pytest(["/venv/bin/python", "-m", "pytest", "-q", "-p", "no:cacheprovider", "--timeout=300",
+                    "--junitxml=" + xml] + nodes, repo, env, xml, 1200)
         if os.path.exists(xml):
             for tc in ET.parse(xml).getroot().iter("testcase"):
                 if not any(c.tag in ("failure", "error", "skipped") for c in tc):
